@@ -44,9 +44,20 @@ ASSUMPTIONS = [
 EXEC = {}  # (run, i) -> times executed; module global, reached by reference from jobs
 
 
-def counted_job(run, i):
+_FALSY = [None, 0, False, (), "", 0.0, [], {}]
+
+
+def counted_job(run, i, falsy=-1):
     EXEC[(run, i)] = EXEC.get((run, i), 0) + 1
+    if falsy >= 0:
+        # a job is free to return None / 0 / an empty container: the runner must not use any of
+        # them as a "no result yet" sentinel
+        return _FALSY[falsy % len(_FALSY)]
     return ("tok", run, i)
+
+
+def _same(a, b):
+    return type(a) is type(b) and a == b
 
 
 def _mk_closure(run, i, pad):
@@ -73,7 +84,12 @@ def _key_for(kind, j, rnd):
         return j * 7 + 3
     if kind == 2:
         return (j, f"e{j % 3}")
-    return ("k%d" % j, j * 7, (j, "e"))[j % 3]
+    if kind == 3:
+        return ("k%d" % j, j * 7, (j, "e"))[j % 3]
+    if kind == 4:  # distinct keys whose str() collide: 0, "0", 2, "2", ...
+        return j if j % 2 == 0 else str(j - 1)
+    # distinct keys with equal hashes (hash(-1) == hash(-2) in CPython) and a float among ints
+    return (-1, -2, 0.5, True)[j] if j < 4 else j
 
 
 def gen_scenario(seed):
@@ -100,6 +116,10 @@ def gen_scenario(seed):
         "tape_seed": r.getrandbits(48),
         "as_iterator": r.random() < 0.15,  # jobs handed over as a one-shot generator
     }
+    # drawn after everything else so that the fields above are what they were before these existed
+    sc["falsy_mod"] = r.choice([0, 0, 0, 1, 2, 3])  # jobs with (i+tape_seed)%m==0 return a falsy value
+    if r.random() < 0.3:
+        sc["key_kind"] = r.choice([4, 5])
     if sc["container"] == "dict":
         sc["return_as"] = None
     # call history: what the runner was used for earlier in this process.  The module is reloaded
@@ -136,6 +156,8 @@ def simplify(sc):
         yield dict(sc, key_shuffle=False)
     if sc["key_kind"]:
         yield dict(sc, key_kind=0)
+    if sc.get("falsy_mod"):
+        yield dict(sc, falsy_mod=0)
     pre = sc.get("preamble") or []
     for i in range(len(pre)):
         yield dict(sc, preamble=pre[:i] + pre[i + 1:])
@@ -162,8 +184,16 @@ def execute(sc, tape, run_id=0):
         viols.append({"class": cls, "key": cls, "detail": detail})
 
     tokens = [("tok", run_id, i) for i in range(n)]
+    fm = sc.get("falsy_mod") or 0
     if sc["fn_kind"] == "counted":
-        jobs = [P.delayed(counted_job)(run_id, i) for i in range(n)]
+        jobs = []
+        for i in range(n):
+            if fm and (i + sc["tape_seed"]) % fm == 0:
+                k = (i * 5 + sc["tape_seed"]) % len(_FALSY)
+                tokens[i] = _FALSY[k]
+                jobs.append(P.delayed(counted_job)(run_id, i, falsy=k))  # kwargs path of a job
+            else:
+                jobs.append(P.delayed(counted_job)(run_id, i))
     else:
         jobs = [P.delayed(_mk_closure(run_id, i, "x" * (i % 5)))() for i in range(n)]
     keys = None
@@ -294,20 +324,21 @@ def execute(sc, tape, run_id=0):
                 info["dict_key_order_differs"] = True
             if set(map(repr, out.keys())) != set(map(repr, expect_keys)):
                 bad("dict_keys", f"keys {list(out.keys())[:8]} are not the input keys {expect_keys[:8]}")
-            wrong = [(k, out.get(k), v) for k, v in zip(expect_keys, expect_vals)
-                     if out.get(k) != v]
+            miss = object()
+            wrong = [(k, out.get(k, miss), v) for k, v in zip(expect_keys, expect_vals)
+                     if not _same(out.get(k, miss), v)]
             if wrong:
                 bad("dict_value", f"key {wrong[0][0]!r} -> {wrong[0][1]!r}, expected {wrong[0][2]!r}")
     elif sc["return_as"] == "generator_unordered":
-        if sorted(out) != sorted(tokens):
-            bad("unordered_multiset", f"yielded {sorted(out)[:6]}.. expected each of {n} tokens once")
+        if sorted(map(repr, out)) != sorted(map(repr, tokens)):
+            bad("unordered_multiset", f"yielded {sorted(map(repr, out))[:6]}.. expected each of {n} results once")
     else:
         if not isinstance(out, list):
             bad("list_type", f"returned {type(out).__name__}")
         elif len(out) != n:
             bad("list_length", f"len {len(out)} != {n} jobs")
         else:
-            wrong = [i for i in range(n) if out[i] != tokens[i]]
+            wrong = [i for i in range(n) if not _same(out[i], tokens[i])]
             if wrong:
                 i = wrong[0]
                 bad("list_position", f"position {i} holds {out[i]!r}, expected {tokens[i]!r}; "
@@ -350,6 +381,8 @@ def run_seed(seed, ctx):
     st["preamble_calls"] = len(sc.get("preamble") or [])
     st["iterator_jobs"] = int(bool(sc.get("as_iterator")) and sc["container"] == "list")
     st["n_jobs_minus_one"] = int(sc["n_jobs"] == -1)
+    st["falsy_result_runs"] = int(bool(sc.get("falsy_mod")) and sc["fn_kind"] == "counted" and n > 0)
+    st["colliding_key_runs"] = int(sc["container"] == "dict" and sc["key_kind"] in (4, 5) and n > 1)
     st["closure_jobs"] = int(sc["fn_kind"] == "closure")
     st["exact_once_checked"] = int(bool(info.get("exact_once")))
     st["dict_key_order_differs"] = int(bool(info.get("dict_key_order_differs")))
